@@ -26,6 +26,9 @@ type Violation struct {
 	// Scenario, if non-nil, replaces the scenario in the replay file (a narrowed version:
 	// e.g. the single crash point out of an enumeration).
 	Scenario any `json:"-"`
+	// Fatal: the worker process is no longer usable (a goroutine of the code under test is
+	// spinning); the violation is saved without minimisation and the worker stops.
+	Fatal bool `json:"-"`
 }
 
 func V(class, format string, a ...any) *Violation {
@@ -279,6 +282,28 @@ func Main(props map[string]*Prop) int {
 			res.EngineError = v.Msg
 			code = 2
 			return code
+		}
+		if v.Fatal {
+			fsc := sc
+			if v.Scenario != nil {
+				fsc = v.Scenario
+			}
+			raw, _ := json.Marshal(fsc)
+			rf := &ReplayFile{Property: p.ID, Engine: os.Getenv("VERIF_ENGINE"), Class: v.Class, Msg: v.Msg, Seed: seed, Tier: tier, Scenario: raw,
+				Tapes: c.Tapes.Snapshot(), Shrink: "not minimised: the worker had to stop"}
+			path := ""
+			if replayDir != "" {
+				os.MkdirAll(replayDir, 0755)
+				path = filepath.Join(replayDir, fmt.Sprintf("%s-%s%d.json", p.ID, os.Getenv("VERIF_ENGINE"), seed))
+				b, _ := json.MarshalIndent(rf, "", " ")
+				os.WriteFile(path, b, 0644)
+			}
+			res.Violations = append(res.Violations, FoundViolation{Class: v.Class, Msg: v.Msg, Replay: path, Seed: seed})
+			res.Completed = true
+			if out != "" {
+				os.Remove(journal)
+			}
+			return 1
 		}
 		if knownClass[v.Class] {
 			res.Stats.Count("known_finding_hits", 1)
